@@ -48,7 +48,12 @@ def do_call(kind, f, args, kwargs):
 
 def bindings_and_forms(s, fn):
     """{binding key: [ (args, kwargs, form tag) ... ]} - forms grouped by what Python binds."""
-    pysig = inspect.signature(fn)
+    # reference binding = the interpreter itself on a shadow function with the same parameter list returning
+    # locals() (CPython 3.12's Signature.bind rejects a keyword named like a defaulted positional-only parameter
+    # that Python routes to **kwargs)
+    ns = {}
+    exec("def shadow(%s):\n    return locals()\n" % sigs.sig_text(s), ns)
+    shadow = ns["shadow"]
     names = sigs.param_names(s)
     kinds = [k for k, _ in s]
     defaulted = [names[i] for i, (k, d) in enumerate(s) if d]
@@ -74,15 +79,14 @@ def bindings_and_forms(s, fn):
             for k in kws:
                 kwargs[k] = val(k) if k in names and kinds[names.index(k)] in ("pk", "ko") else ("x", k)
             try:
-                ba = pysig.bind(*args, **kwargs)
+                loc = shadow(*args, **kwargs)
             except TypeError:
                 continue
-            ba.apply_defaults()
             # canonical binding
             key_items = []
-            for pn, pv in ba.arguments.items():
-                p = pysig.parameters[pn]
-                if p.kind is p.VAR_KEYWORD:
+            for pn, pk in zip(names, kinds):
+                pv = loc[pn]
+                if pk == "vk":
                     pv = tuple(sorted(pv.items()))
                 key_items.append((pn, pv))
             key = repr(key_items)
